@@ -26,7 +26,7 @@ def run(ctx: Ctx):
     ctx.floor("R-C11-1", 6, "formulation obligations of the soft alignment")
     ilp.check_sizes(ctx, F, "R-C11-2")
     ilp.check_decoding(ctx, F, {"threshold": "R-C11-2", "same-ids": "R-C11-2", "slots": "R-C11-2", "own-unit": "R-C11-2",
-                                "null-decode": "R-C11-2", "ua-built": "R-C11-2", "ua-disorder": "R-C11-2", "result": "R-C11-2",
+                                "null-decode": "R-C11-2", "ua-built": "R-C11-2", "all-emitted": "R-C11-2", "ua-disorder": "R-C11-2", "result": "R-C11-2",
                                 "cached": "R-C11-2", "shared-decoding": "R-C11-2"}, "SoftAlignment")
     nbk.check_build_A(ctx, {"A-shape": "R-C11-2", "A-offset": "R-C11-2", "A-cell": "R-C11-2", "A-null": "R-C11-2"})
     nbk.check_candidates(ctx, {"source": "R-C11-4", "sizes-with-null": "R-C11-4", "threshold": "R-C11-4", "filter-op": "R-C11-4", "filter-extra": "R-C11-4",
